@@ -38,6 +38,8 @@ def run(ctx):
     c01_3(ctx, spec)
     from . import c01_effects
     c01_effects.run(ctx, spec)
+    from . import c01_owned
+    c01_owned.run(ctx)
 
 
 # ------------------------------------------------------------------ C01.1
